@@ -110,6 +110,19 @@ func replay(in, out string) {
 			if st != nil {
 				t.Emit(ObsEv(c, st, "k", c.Keys, nil))
 			}
+		case "calibration":
+			cal := calibrateLegacy("/repo/trie/testdata")
+			t.Emit(Ev{"ev": "calibration", "v3ok": cal.V3OK, "v3bad": cal.V3Bad, "v10ok": cal.V10OK, "v10bad": cal.V10Bad})
+		case "legacy":
+			c = caseFromNew(e)
+			layout := e["layout"].(string)
+			b, ok := legacyBytes(c, layout)
+			if !ok {
+				continue
+			}
+			var ec, pan string
+			st, ec, pan = loadLegacy(c, b, false)
+			t.Emit(legacyEv(c, layout, len(b), ec, pan))
 		case "index":
 			keys := toStrings(e["keys"])
 			offs := []int64{}
